@@ -491,9 +491,16 @@ func flowOne(p *Program, fn *ssa.Function, site *ssa.Call, e ssa.Value, cfg errF
 		b     *ssa.BasicBlock
 		start int
 		st    efState
+		facts string // outcomes of nil tests of OTHER error values met on the way (infeasible-path pruning)
+		from  *ssa.BasicBlock // predecessor the block was entered from (resolves the phi of a short-circuit condition)
 	}
-	entry := map[*ssa.BasicBlock]efState{}
-	seenEntry := map[*ssa.BasicBlock]bool{}
+	type entryKey struct {
+		b     *ssa.BasicBlock
+		facts string
+		from  *ssa.BasicBlock
+	}
+	entry := map[entryKey]efState{}
+	seenEntry := map[entryKey]bool{}
 	var problems []string
 	reported := map[ssa.Instruction]bool{}
 	report := func(in ssa.Instruction, msg string) {
@@ -514,24 +521,57 @@ func flowOne(p *Program, fn *ssa.Function, site *ssa.Call, e ssa.Value, cfg errF
 			si = i
 		}
 	}
-	work := []item{{sb, si + 1, stU}}
-	push := func(b *ssa.BasicBlock, st efState) {
+	work := []item{{sb, si + 1, stU, "", nil}}
+	curFacts := ""
+	var curBlock *ssa.BasicBlock
+	pushF := func(b *ssa.BasicBlock, st efState, facts string) {
 		if st == stZ {
 			return
 		}
-		if seenEntry[b] && entry[b] >= st {
+		// facts speak about values computed on the way; round a loop they are recomputed
+		if curBlock != nil && b.Dominates(curBlock) {
+			facts = ""
+		}
+		// the predecessor matters only where the block merges a short-circuit condition
+		var from *ssa.BasicBlock
+		if len(b.Instrs) > 0 {
+			if _, isPhi := b.Instrs[0].(*ssa.Phi); isPhi {
+				from = curBlock
+			}
+		}
+		k := entryKey{b, facts, from}
+		if seenEntry[k] && entry[k] >= st {
 			return
 		}
-		if !seenEntry[b] || st > entry[b] {
-			entry[b] = st
+		if !seenEntry[k] || st > entry[k] {
+			entry[k] = st
 		}
-		seenEntry[b] = true
-		work = append(work, item{b, 0, entry[b]})
+		seenEntry[k] = true
+		work = append(work, item{b, 0, entry[k], facts, from})
+	}
+	push := func(b *ssa.BasicBlock, st efState) { pushF(b, st, curFacts) }
+	// nil test of an error value other than the tracked one: (key, value is nil on the true side)
+	otherNilTest := func(cond ssa.Value) (string, bool, bool) {
+		b, ok := cond.(*ssa.BinOp)
+		if !ok || (b.Op != token.EQL && b.Op != token.NEQ) {
+			return "", false, false
+		}
+		var v ssa.Value
+		if isNilConst(b.Y) {
+			v = b.X
+		} else if isNilConst(b.X) {
+			v = b.Y
+		}
+		if v == nil || !isErrorType(v.Type()) || A[v] {
+			return "", false, false
+		}
+		return fmt.Sprintf("%p", v), b.Op == token.EQL, true
 	}
 	for len(work) > 0 {
 		it := work[len(work)-1]
 		work = work[:len(work)-1]
 		st := it.st
+		curFacts, curBlock = it.facts, it.b
 		stop := false
 		for i := it.start; i < len(it.b.Instrs) && !stop; i++ {
 			in := it.b.Instrs[i]
@@ -617,7 +657,25 @@ func flowOne(p *Program, fn *ssa.Function, site *ssa.Call, e ssa.Value, cfg errF
 					}
 				}
 			case *ssa.If:
-				t, f := condEffect(x.Cond, A, st, cfg)
+				cond := x.Cond
+				// the value of `a && b` / `a || b` on the edge this block was entered from
+				if ph, ok := cond.(*ssa.Phi); ok && ph.Block() == it.b && it.from != nil {
+					for pi, pr := range it.b.Preds {
+						if pr == it.from && pi < len(ph.Edges) {
+							cond = ph.Edges[pi]
+						}
+					}
+					if bv, isConst := boolConst(cond); isConst {
+						if bv {
+							push(it.b.Succs[0], st)
+						} else {
+							push(it.b.Succs[1], st)
+						}
+						stop = true
+						break
+					}
+				}
+				t, f := condEffect(cond, A, st, cfg)
 				// a boolean result of the same call that the callee only ever sets together with a nil error
 				// (`opcode, n, chunkEnded, err := l.readRecordPrefix(); if chunkEnded { continue }`): on its true side the
 				// error is known nil
@@ -629,6 +687,30 @@ func flowOne(p *Program, fn *ssa.Function, site *ssa.Call, e ssa.Value, cfg errF
 							}
 						}
 					}
+				}
+				if key, nilOnTrue, ok := otherNilTest(cond); ok && len(curFacts) < 200 {
+					isNil, notNil := key+"=nil;", key+"!=nil;"
+					trueFact, falseFact := notNil, isNil
+					if nilOnTrue {
+						trueFact, falseFact = isNil, notNil
+					}
+					// a test whose outcome is already known on this path has one feasible side
+					if !strings.Contains(curFacts, falseFact) {
+						f2 := curFacts
+						if !strings.Contains(f2, trueFact) {
+							f2 += trueFact
+						}
+						pushF(it.b.Succs[0], t, f2)
+					}
+					if !strings.Contains(curFacts, trueFact) {
+						f2 := curFacts
+						if !strings.Contains(f2, falseFact) {
+							f2 += falseFact
+						}
+						pushF(it.b.Succs[1], f, f2)
+					}
+					stop = true
+					break
 				}
 				push(it.b.Succs[0], t)
 				push(it.b.Succs[1], f)
